@@ -8,5 +8,5 @@ CONSTANTS
 INIT Init
 NEXT Next
 VIEW View
-INVARIANTS AtMostOnce AcceptsFresh
 ACTION_CONSTRAINT DumpEdge
+PROPERTIES AtMostOnceA AcceptsFreshA
